@@ -354,6 +354,11 @@ def edits_of(node, rng):
             vn, d, f = vs[i]
             out.append(('variant_renamed', ('En', node[1], vs[:i] + [(vn + b"_", d, f)] + vs[i + 1:], node[3], node[4], node[5], node[6])))
             out.append(('discriminant_changed', ('En', node[1], vs[:i] + [(vn, (d + 1) % 256, f)] + vs[i + 1:], node[3], node[4], node[5], node[6])))
+            # the payload of one variant changes while its name and discriminant stay (unit <-> data-carrying included)
+            out.append(('variant_field_added', ('En', node[1], vs[:i] + [(vn, d, f + [(b"extra", ('Pr', 8, None), None)])] + vs[i + 1:], node[3], node[4], node[5], node[6])))
+            if f:
+                out.append(('variant_fields_emptied', ('En', node[1], vs[:i] + [(vn, d, [])] + vs[i + 1:], node[3], node[4], node[5], node[6])))
+                out.append(('variant_field_removed', ('En', node[1], vs[:i] + [(vn, d, f[:-1])] + vs[i + 1:], node[3], node[4], node[5], node[6])))
         if len(vs) >= 2:
             i = rng.randrange(len(vs) - 1)
             sw = vs[:i] + [vs[i + 1], vs[i]] + vs[i + 2:]
